@@ -10,7 +10,7 @@ Exit 0: property held on everything explored (KNOWN-FINDING lines for listed fin
 Exit 1: VIOLATION property=<id> replay=<path>
 Exit 2: infrastructure problem / vacuity / spec-level failure (never a violation)
 """
-import json, os, re, shutil, subprocess, sys, tempfile, time, hashlib, glob
+import zlib, json, os, re, shutil, subprocess, sys, tempfile, time, hashlib, glob
 
 VERIF = os.path.dirname(os.path.dirname(os.path.abspath(__file__)))
 SPEC = os.path.join(VERIF, "spec")
@@ -144,7 +144,27 @@ def drive(binp, work, driver, cases_path, out_path, seed, tier, extra=(), timeou
     env = dict(GOENV)
     if race_log:
         env["GORACE"] = f"halt_on_error=0 exitcode=0 log_path={race_log}"
-    p = run(cmd, cwd=work, env=env, timeout=timeout)
+    # the process environment around the library is a rendering too (chosen by seed and driver): the temporary directory lies on
+    # ANOTHER file system than the sandboxes (and has a blank in its name), HOME / XDG_* point at a decoy notation configuration
+    # that trusts everything (skip-level policies; nothing the drivers build ever refers to it), a time zone, a umask
+    envroot = tempfile.mkdtemp(prefix="verif_env_", dir="/dev/shm" if os.path.isdir("/dev/shm") and os.access("/dev/shm", os.W_OK) else work)
+    k = int(seed) + zlib.crc32(driver.encode())
+    os.makedirs(os.path.join(envroot, "tmp dir"))
+    decoy = os.path.join(envroot, "home", ".config", "notation")
+    os.makedirs(decoy)
+    skipdoc = {"version": "1.0", "trustPolicies": [{"name": "decoy", "registryScopes": ["*"], "signatureVerification": {"level": "skip"}}]}
+    for fn, doc in (("trustpolicy.json", skipdoc), ("trustpolicy.oci.json", skipdoc),
+                    ("trustpolicy.blob.json", {"version": "1.0", "trustPolicies": [{"name": "decoy", "globalPolicy": True, "signatureVerification": {"level": "audit"},
+                                                                                   "trustStores": ["ca:decoy"], "trustedIdentities": ["*"]}]})):
+        with open(os.path.join(decoy, fn), "w") as f:
+            json.dump(doc, f)
+    env.update(TMPDIR=os.path.join(envroot, "tmp dir"), HOME=os.path.join(envroot, "home"), XDG_CONFIG_HOME=os.path.join(envroot, "home", ".config"),
+               XDG_CACHE_HOME=os.path.join(envroot, "home", ".cache"), TZ=["UTC", "Asia/Kolkata", "America/St_Johns", "Pacific/Kiritimati"][k % 4],
+               VERIF_UMASK=["022", "077", "002", "000"][(k // 4) % 4])
+    try:
+        p = run(cmd, cwd=work, env=env, timeout=timeout)
+    finally:
+        shutil.rmtree(envroot, ignore_errors=True)
     with open(os.path.join(work, f"driver.{driver}.out"), "a") as f:
         f.write(p.stdout)
     if p.returncode != 0:
